@@ -287,11 +287,29 @@ func (c *container) sendLoop() {
 			if !ok {
 				return
 			}
-			if err := c.socket.SendMsg(cmd.Cmd, cmd.Msg); err != nil {
+			err := c.socket.SendMsg(cmd.Cmd, cmd.Msg)
+			if isRejected(err) {
+				// the request was refused and nothing of it reached the container, which
+				// will therefore not answer: fail the call in its place, the environment
+				// is as usable as before
+				err = c.answerRejected(err)
+			}
+			if err != nil {
 				c.socketError(err)
 				return
 			}
 		}
+	}
+}
+
+// answerRejected hands the caller that waits for the container's reply an error reply instead
+func (c *container) answerRejected(err error) error {
+	select {
+	case <-c.done:
+		return c.err
+
+	case c.recvCh <- recvReply{Reply: reply{Error: &errorReply{Msg: err.Error()}}}:
+		return nil
 	}
 }
 
